@@ -206,7 +206,8 @@ def render(c, base):
 
 
 def parse(line):
-    t = line.split()
+    import namekeys
+    t = namekeys.strip_toks(line.split())
     assert t[0] == "typedfs"
     base, game, lang, nl = t[1], int(t[2]), int(t[3]), int(t[4])
     i = 5
